@@ -95,12 +95,13 @@ type State struct {
 	cancelled bool
 	notes   []string
 	resultsForRows []Val
+	noObl int // >0: obligations are suppressed (evaluation under a bound variable)
 }
 
 func (st *State) top() *Frame { return st.frames[len(st.frames)-1] }
 
 func (st *State) clone() *State {
-	n := &State{heap: map[string]*Term{}, globals: map[*ssa.Global]Val{}, alloc: st.alloc, segStart: st.segStart, segSpec: st.segSpec, cancelled: st.cancelled}
+	n := &State{heap: map[string]*Term{}, globals: map[*ssa.Global]Val{}, alloc: st.alloc, segStart: st.segStart, segSpec: st.segSpec, cancelled: st.cancelled, noObl: st.noObl}
 	for k, v := range st.heap {
 		n.heap[k] = v
 	}
